@@ -69,6 +69,7 @@ func init() {
 		Explanation: "Decides: the typestate table of Subscription.state (who may move a subscription into which state); populate → hand the frame over → release on every path (PAIR/rpc-resources); the shapes the collector relies on: ReleaseRPCResources marks sent, descends into every reference and then opens the loading gate; populateResources* count an edge once, skip sent resources and mark ToSend before descending; removeCount's counter effects follow its direct/sent/tryDelete arguments; every disposed subscription leaves the connection's table (DOM/ref-shapes); references are released with the parent's sent-ness as it was while the edge was counted (PROV/sent-flag: known finding F6); the sent-count is raised once per created edge (PAIR/edge-sent-once: known finding F8); a re-sendable resource has a current snapshot and a closed gate (PAIR/snapshot-current: known finding F13); no change on a collection, no add/remove on a model, decoded indexes inside [0,len] (DOM/index-kind-guard); no event before the hand-over (DOM/event-gate); recursion census. NOT decided — and this is the core of the property: correctness of the two-pass reference-count collector tryDelete/Unsend and of the indirectsent arithmetic on arbitrary reference graphs. Added after seeding round 7: the encoding cached for the latest protocol is read by MarshalJSON only, so a legacy connection is never handed bytes in the wrong dialect (WHO/encoding-cache). Added after seeding round 8: collection snapshots held by still-loading subscriptions are never written in place (DOM/copy-on-write). Added after seeding round 9: marshalers put text into a frame only through json.Marshal, so every frame is well-formed (PROV/json-text). Added after seeding round 10: CONTRA/stale-test (see C01) for the collector's sent-count bookkeeping. Added after seeding round 11: the unsubscribe event releases every direct subscription (DOM/revoke), so no later event targets a resource the client dropped. Added after seeding round 12: the already-handed-over quick exit of populateResources* is taken for exactly the states to-send and sent, by constant propagation over the seven states (TABLE/populate-skip); a release with the collect flag set reaches the collector on every path (DOM/gc-after-release). Added after the mutation sweep: the continuation of an add/change event that waited for referenced resources sends only under state != disposed, tested after the wait (DOM/ready-continuation-live); a map member created on demand is written only where it exists (DOM/map-made).",
 		Assumptions: baseAssumptions,
 		Rules: []Rule{
+			{Name: "REC/gc-terminates", Min: 3, Run: ruleGCTerminates, Doc: "the collector revisits a node marked for deletion only to upgrade it to kept, and stops at kept nodes"},
 			{Name: "DOM/map-made", Min: 4, Run: ruleMapMade, Doc: "the errors / models / collections maps of a resource set are made before they are written: a failed reference is reported as an error entry, not as a crash"},
 			{Name: "DOM/ready-continuation-live", Min: 2, Run: ruleReadyContinuationLive, Doc: "an event that waited for its references is sent only if its subscription is still alive: no event for a resource the client dropped"},
 			{Name: "TABLE/legacy-select", Min: 8, Run: ruleLegacySelect, Doc: "every message is in the dialect of the protocol version the client negotiated"},
@@ -248,6 +249,7 @@ func init() {
 		Explanation: "Decides: getSubscription counts one use on every successful return and none on an error return, errors only when an mq subscription was requested, and with subscribe=true returns only after the entry's mq subscription exists (PAIR/cache-count); callers release the use or hand it to addSubscriber exactly once; a count is released iff a membership was removed and bulk releases equal the set dropped (PAIR/membership); a late or repeated Loaded owns or releases the resource exactly once (PAIR/loaded-handover); eviction re-checks the count under the locks, addCount cancels a pending eviction, removeCount queues the entry exactly at zero, gauges follow the count (DOM/evict); get requests are issued only from addSubscriber / reset (DOM/sub-before-get); a removed entry is cleared from every index it is findable through — base (also for the empty alias), queries, links (DOM/unregister). Not decided: the eviction delay and timers, gauges reading zero at a particular moment. Added after seeding round 7: the connection-side collector marks a held node, or one reached from a kept node, kept — also over an earlier deletion mark — so a shared subscription's cache use is not given back under a live client subscription (DOM/gc-mark). Added after seeding round 8: an entry registered in the cache's index is counted on that very path, because the eviction queue is entered only by releasing a count (PAIR/cache-count). Added after seeding round 9: the use count of a cache entry is touched under the entry's mutex by takers and releasers alike (CTX/guarded-by). Added after seeding round 10: a failed get — denied access included — leaves no connection-level subscription behind (PAIR/direct-count). Added after seeding round 11: an event discarded by the cache is not fanned out either (CONF/handle-event): subscribers that dispose themselves on a delete the cache did not apply would leave their use counts behind. Added after seeding round 12: the reference throttle's queue is only appended to and popped (FIFO/queues).",
 		Assumptions: baseAssumptions,
 		Rules: []Rule{
+			{Name: "PAIR/release-on-teardown", Min: 4, Run: ruleReleaseOnTeardown, Doc: "an evicted cache entry's event subscription is released"},
 			{Name: "FIFO/queues", Min: 1, Run: ruleFIFO("rescache.Throttle.queue"), Doc: "a disposed subscription drops no get request waiting in the shared reference throttle: the cache entries those requests belong to already count the subscriber and would never be released"},
 			{Name: "PAIR/alias-recorded", Min: 1, Run: ruleAliasRecorded, Doc: "every alias of a cache resource is on its alias list, so unregister clears it"},
 			{Name: "CONF/handle-event", Min: 1, Run: ruleHandleEvent, Doc: "an event the cache drops is dropped for the subscribers too: a delete passed on without being applied makes them leave while the cache keeps their use counts"},
@@ -287,9 +289,10 @@ func init() {
 
 	register(&Property{
 		ID: "C11", Title: "Disconnect cleanup at any moment",
-		Explanation: "Decides: wsConn.dispose sets the flag and closes the worker channel in one critical section, removes the connection from the cache and from token-reset fan-out, unsubscribes the connection events, disposes every subscription, and leaves the registry (DOM/dispose); Subscription.Dispose releases references and exactly one cache use; Enqueue/Subscribe/Unsubscribe refuse a disposing connection; a late Loaded releases the cache use (PAIR/loaded-handover); late access answers are absorbed (DOM/verdict-store); no call/auth request is issued by a continuation of a disposed connection (CTX/post-dispose); a refused task never strands a throttle slot of other connections (PAIR/throttle-slot); temporary HTTP connections are disposed exactly once on every exit (LIN/temp-conn); sends on the worker channel cannot hit the close (CHAN); teardown takes the connection and cache mutexes in an order that cannot deadlock against the token-reset fan-out (LOCK/order). Not decided: 'no effect on other connections' as a runtime fact beyond the pairing rules of C09. Added after seeding round 7: every service request reads the connection's token and is therefore confined to the connection's worker (CTX/conn), whose queue refuses tasks after the close; a named function that sends a call/auth request hands the dispose test to each closure calling it (CTX/post-dispose). Added after seeding round 8: no function run with the event subscription's mutex held (the tasks of its worker) calls something that takes that mutex again (LOCK/order with held-on-entry states). Added after seeding round 9: a re-access trigger on a disposed subscription starts no access request (DOM/invalidate). Added after seeding round 11: the disposing test that keeps a continuation from sending a call/auth request lies in the continuation itself — a test in front of the creation of the continuation says nothing about the time it runs (CTX/post-dispose). Added after seeding round 12: PAIR/membership serves this property too.",
+		Explanation: "Decides: wsConn.dispose sets the flag and closes the worker channel in one critical section, removes the connection from the cache and from token-reset fan-out, unsubscribes the connection events, disposes every subscription, and leaves the registry (DOM/dispose); Subscription.Dispose releases references and exactly one cache use; Enqueue/Subscribe/Unsubscribe refuse a disposing connection; a late Loaded releases the cache use (PAIR/loaded-handover); late access answers are absorbed (DOM/verdict-store); no call/auth request is issued by a continuation of a disposed connection (CTX/post-dispose); a refused task never strands a throttle slot of other connections (PAIR/throttle-slot); temporary HTTP connections are disposed exactly once on every exit (LIN/temp-conn); sends on the worker channel cannot hit the close (CHAN); teardown takes the connection and cache mutexes in an order that cannot deadlock against the token-reset fan-out (LOCK/order). Not decided: 'no effect on other connections' as a runtime fact beyond the pairing rules of C09. Added after seeding round 7: every service request reads the connection's token and is therefore confined to the connection's worker (CTX/conn), whose queue refuses tasks after the close; a named function that sends a call/auth request hands the dispose test to each closure calling it (CTX/post-dispose). Added after seeding round 8: no function run with the event subscription's mutex held (the tasks of its worker) calls something that takes that mutex again (LOCK/order with held-on-entry states). Added after seeding round 9: a re-access trigger on a disposed subscription starts no access request (DOM/invalidate). Added after seeding round 11: the disposing test that keeps a continuation from sending a call/auth request lies in the continuation itself — a test in front of the creation of the continuation says nothing about the time it runs (CTX/post-dispose). Added after seeding round 12: PAIR/membership serves this property too. Added after the mutation sweep: unsubscribeConn releases the connection's messaging-system subscription whenever there is one, RemoveConn takes the connection out of the token-reset registry, the cache's eviction releases the entry's event subscription (PAIR/release-on-teardown).",
 		Assumptions: baseAssumptions,
 		Rules: []Rule{
+			{Name: "PAIR/release-on-teardown", Min: 4, Run: ruleReleaseOnTeardown, Doc: "a closed connection's messaging-system subscription is released and the connection leaves the token-reset registry"},
 			{Name: "DOM/ready-continuation-live", Min: 2, Run: ruleReadyContinuationLive, Doc: "nothing is sent, and no reference counted as sent, for a subscription disposed while an event waited for its references"},
 			{Name: "LOCK/guarded-fields", Min: 40, Run: ruleGuardedFields, Doc: "the connection's queue and the cache's connection registry are touched under their mutexes while a connection goes away"},
 			{Name: "LOCK/balance", Min: 20, Run: ruleLockBalance, Doc: "teardown paths leave every mutex as they found it"},
@@ -372,9 +375,11 @@ func init() {
 
 	register(&Property{
 		ID: "C15", Title: "Crash freedom and containment of malformed input",
-		Explanation: "Decides the panic classes that have a crisp rule: decoders return no data with an error, so log-and-continue callers cannot apply a partial message, and return the decoded object whenever they report success, so callers that dereference it cannot hit nil (DOM/all-or-nothing); decoded indexes reach slice operations only inside [0,len] with the exact bound for element access vs slicing, content is dereferenced only for the right kind (DOM/index-kind-guard); optional decoded pointers are dereferenced under their nil test or a predicate implying it, null elements of decoded pointer slices are rejected (DOM/opt-deref); explicit panics and unchecked type assertions are the listed ones (CENSUS/panic); no send on a channel that may have been closed (CHAN: known finding F5 for Cache.inCh); recursive cycles are the listed ones with checked guards (REC/census); the mutex acquisition graph is acyclic (LOCK/order); one Done per throttle slot, so the 'negative running counter' panic is unreachable (PAIR/throttle-slot); a failed or malformed re-fetch closes the reset window, so later valid messages are processed normally (DOM/reset-protocol). Not decided: index safety of lcs, ResourcePattern.Match, byte scans in UnmarshalJSON, encoder buffers; JSON library behaviour; memory exhaustion. Added after seeding round 8: a failed query request releases the event lock, so later messages are still processed (PAIR/query-lock). Added after seeding round 10: a value object naming two of rid, action and data is refused (TABLE/value-object); an answer carrying an error is an error (DOM/error-wins). Added after seeding round 11: every message is decoded as a whole — json.Unmarshal, or a streaming decode followed by a probe for trailing input (TABLE/whole-input); the kind of an answer is decided by the member that is present (TABLE/kind-by-presence).  Added after seeding round 12: an alias of a normalised query resource — base pointer or links entry — is recorded in the resource's alias list on the same path (PAIR/alias-recorded).",
+		Explanation: "Decides the panic classes that have a crisp rule: decoders return no data with an error, so log-and-continue callers cannot apply a partial message, and return the decoded object whenever they report success, so callers that dereference it cannot hit nil (DOM/all-or-nothing); decoded indexes reach slice operations only inside [0,len] with the exact bound for element access vs slicing, content is dereferenced only for the right kind (DOM/index-kind-guard); optional decoded pointers are dereferenced under their nil test or a predicate implying it, null elements of decoded pointer slices are rejected (DOM/opt-deref); explicit panics and unchecked type assertions are the listed ones (CENSUS/panic); no send on a channel that may have been closed (CHAN: known finding F5 for Cache.inCh); recursive cycles are the listed ones with checked guards (REC/census); the mutex acquisition graph is acyclic (LOCK/order); one Done per throttle slot, so the 'negative running counter' panic is unreachable (PAIR/throttle-slot); a failed or malformed re-fetch closes the reset window, so later valid messages are processed normally (DOM/reset-protocol). Not decided: index safety of lcs, ResourcePattern.Match, byte scans in UnmarshalJSON, encoder buffers; JSON library behaviour; memory exhaustion. Added after seeding round 8: a failed query request releases the event lock, so later messages are still processed (PAIR/query-lock). Added after seeding round 10: a value object naming two of rid, action and data is refused (TABLE/value-object); an answer carrying an error is an error (DOM/error-wins). Added after seeding round 11: every message is decoded as a whole — json.Unmarshal, or a streaming decode followed by a probe for trailing input (TABLE/whole-input); the kind of an answer is decided by the member that is present (TABLE/kind-by-presence).  Added after seeding round 12: an alias of a normalised query resource — base pointer or links entry — is recorded in the resource's alias list on the same path (PAIR/alias-recorded). Added after the mutation sweep (generic crash-freedom rules, each over every site of its kind in the repository): values of comma-ok lookups are dereferenced only where found (DOM/lookup-ok); elements at constant positions are read only under a length test (DOM/const-index); pointer members that are nil for part of their object's life are used only under their nil test (DOM/optional-field); results of fallible calls are looked into only after the error was found nil, and decoders report success only under err == nil of json.Unmarshal (ERR/checked-before-use); map members created on demand are written only where they exist (DOM/map-made); every function leaves each mutex as it found it (LOCK/balance) and touches the fields a mutex guards only with it held (LOCK/guarded-fields); the collector's graph walks terminate on cycles (REC/gc-terminates).",
 		Assumptions: baseAssumptions,
 		Rules: []Rule{
+			{Name: "DOM/optional-hook", Min: 3, Run: ruleOptionalHook, Doc: "a hook that may be unset is called only under its non-nil test"},
+			{Name: "REC/gc-terminates", Min: 3, Run: ruleGCTerminates, Doc: "the collector's walks over the reference graph end on every graph, cycles included (no stack overflow on the connection worker)"},
 			{Name: "DOM/map-made", Min: 4, Run: ruleMapMade, Doc: "a map member that is created on demand is written only where it is known to exist"},
 			{Name: "ERR/checked-before-use", Min: 20, Run: ruleErrCheckedBeforeUse, Doc: "what a fallible call hands back is looked into only after its error was found nil: a message that fails to decode is discarded as a whole"},
 			{Name: "DOM/lookup-ok", Min: 3, Run: ruleLookupOK, Doc: "the pointer a comma-ok map lookup returns is dereferenced only where the lookup found it"},
